@@ -2,7 +2,7 @@
    Only pinned statements, `exact`, Examples by vm_compute, and Print Assumptions. *)
 From Coq Require Import String List NArith ZArith PArith Bool FMapPositive.
 From Sylt Require Import Syntax.Resolved Types.TyGraph Types.Tc Types.Ctx Types.TcInv Types.Reject Types.Mismatch
-  Types.CopyInst Types.Calls Types.CallsDecl Types.BlobFields Types.FieldAssign Types.TwoDecls Types.ForwardDecl Types.DeclOrder.
+  Types.CopyInst Types.Calls Types.CallsDecl Types.BlobFields Types.FieldAssign Types.TwoDecls Types.ForwardDecl Types.DeclOrder Types.UnionCons.
 Import ListNotations.
 Local Open Scope string_scope.
 
@@ -318,6 +318,18 @@ Theorem C03_instance_keeps_known_components : forall g a s r s' h x c t,
   exists h' c' t', head s' r = Some h' /\ kid h' x = Some c' /\ head s' c' = Some t' /\ same_shape t t' = true.
 Proof. exact CopyInst.copy_known_kids. Qed.
 
+(* fn union keeps the constraints of BOTH classes, whichever root survives (the smaller class is hung under the larger one
+   and its constraints are inserted into the surviving root).  A round-5 seed took the constraints before the by-size swap
+   and lost those of the smaller class: a deferred `-` on an unknown that is then unified into a larger class was never
+   checked. *)
+Theorem C03_union_keeps_constraints : forall a b s u s' c,
+  wf s -> union a b s = Ok (u, s') -> has_con s a c \/ has_con s b c -> has_con s' a c /\ has_con s' b c.
+Proof. exact UnionCons.union_keeps_constraints. Qed.
+
+Example C03_has_con_def : forall s i c,
+  has_con s i c = (exists r n, rep s i = Some r /\ lk s r = Some n /\ In c (ncons n)).
+Proof. reflexivity. Qed.
+
 (* two types with components of different leaf types at the same position do not unify *)
 Theorem C03_component_conflict : forall g sp a b s ha hb x ca cb ta tb,
   wf s -> head s a = Some ha -> head s b = Some hb -> kid ha x = Some ca -> kid hb x = Some cb ->
@@ -559,7 +571,18 @@ Example C03_example_forward_mention_ok :
   typecheck 60 (prog_mention [declA; declB] good_inst) = Ok tt /\ typecheck 60 (prog_mention [declB; declA] good_inst) = Ok tt.
 Proof. split; vm_compute; reflexivity. Qed.
 
+(* the smaller class carries the constraint: x (one node, constraint Neg) is united into the class of y and z (two nodes):
+   the root of y survives and has the constraint; the same with the arguments the other way round *)
+Definition union_example (swap : bool) : list constr * (tyid * tyid) :=
+  match (x <- push_type HUnknown ;; add_constraint x CNeg ;;; y <- push_type HUnknown ;; z <- push_type HUnknown ;;
+         union y z ;;; (if swap then union x y else union y x) ;;; n <- find_node x ;; ry <- find y ;; ret (ncons n, (nrep n, ry)))%tc empty_st with
+  | Ok (r, _) => r | _ => ([], (1%positive, 1%positive)) end.
+Example C03_example_union_keeps_constraints :
+  union_example false = ([CNeg], (2%positive, 2%positive)) /\ union_example true = ([CNeg], (2%positive, 2%positive)).
+Proof. split; vm_compute; reflexivity. Qed.
+
 Print Assumptions C03_placement.
+Print Assumptions C03_union_keeps_constraints.
 Print Assumptions C03_forward_blob_mention.
 Print Assumptions C03_blob_mention_both_orders.
 Print Assumptions C03_forward_enum_mention.
